@@ -6,6 +6,9 @@
 #include "apitable.hpp"
 #include <fstream>
 #include <sys/mman.h>
+#include "giant.hpp"
+#include "simcpu.hpp"
+#include <sys/wait.h>
 using namespace vh;
 
 namespace {
@@ -159,6 +162,7 @@ uint8_t *huge_buf(size_t len) {
     static uint8_t *p = nullptr; static size_t n = 0;
     if (p && n >= len) return p;
     if (p) munmap(p, n);
+    if (len >= ((size_t) 1 << 30) && !giant::have_memory(len)) { p = nullptr; n = 0; return nullptr; }
     void *q = mmap(nullptr, len + 64, PROT_READ | PROT_WRITE, MAP_PRIVATE | MAP_ANONYMOUS, -1, 0);
     if (q == MAP_FAILED) { p = nullptr; n = 0; return nullptr; }
     p = (uint8_t *) q; n = len;
@@ -208,9 +212,9 @@ void explore_huge(Ctx &ctx) {
     for (size_t len : lens) for (int what = 0; what < NHUGE; what++) {
         bool aegis = what <= 1;
         bool fast_build = std::string(VERIF_FLAVOUR) == "plain" || std::string(VERIF_FLAVOUR) == "plainclang";
-        if (aegis && (!ctx.thorough() || !fast_build || len > ((size_t) 1 << 30))) continue;        // software AES over 512 MiB takes tens of seconds: thorough tier, non-sanitizer builds, never 4 GiB
-        if (len > ((size_t) 1 << 30) && !fast_build) continue;                                       // 4 GiB through a sanitizer build takes minutes per call
-        if (len > ((size_t) 1 << 30) && !(what == 2 || what == 4 || what == 5 || what == 6 || what == 7)) continue;      // 4 GiB: the length-block / counter users only
+        if (aegis && (!ctx.thorough() || !fast_build || !giant::first_round() || len > ((size_t) 1 << 30))) continue;        // software AES over 512 MiB takes tens of seconds: thorough tier, non-sanitizer builds, never 4 GiB
+        if (len > ((size_t) 1 << 30) && (!fast_build || !giant::first_round())) continue;                                       // 4 GiB through a sanitizer build takes minutes per call
+        if (len > ((size_t) 1 << 30) && !(what == 2 || what == 4 || what == 5 || what == 6 || what == 7 || what == 9)) continue;      // 4 GiB: the length-block / counter users only
         if (len > ((size_t) 1 << 30) ? ctx.worker != 0 : !ctx.mine(idx++)) continue;    // one 4 GiB buffer per build at most
         unsigned long ref = what == 10 ? F_ALL : 0;
         std::vector<unsigned long> ms = { F_ALL };
@@ -262,7 +266,144 @@ void explore_getters(Ctx &ctx) {
     if (xb.is_open()) xb << std::hex << d << std::dec << "\tkind=getters;refmask=0\n";
 }
 
+// ------------------------------------------------------------------ simulated processors (harness/simcpu.hpp)
+// The hook's mask removes features *after* the library's detection ran on the real processor; here the detection code itself and the
+// selection that follows meet machines the host is not: in a forked child CPUID is answered by the harness (bits of leaf 1 / leaf 7 cleared
+// the way an older processor, a hypervisor or an OS without XSAVE support reports them), detection and selection are re-run, and a fixed set
+// of calls is single-stepped.  Oracles: (1) reported flags are a subset of what that machine provides (Intel SDM detection procedure);
+// (2) no executed instruction inside this executable belongs to an ISA extension the machine lacks (it would raise SIGILL there);
+// (3) every output equals the one computed, on the same simulated machine, with all features masked off; (4) the child is not killed.
+// Only in non-sanitizer builds (single stepping an ASan build is out of reach); the "mflags" build variant applies Makefile.am's per-library
+// machine flags, so that instruction encodings are those of the real build.
+enum { K_SSE2, K_SSE3, K_SSSE3, K_SSE41, K_AESNI, K_PCLMUL, K_RDRAND, K_XSAVE, K_OSXSAVE, K_AVX, K_AVX2, K_AVX512F, NKNOB };
+const char *KNOB[] = { "sse2", "sse3", "ssse3", "sse4.1", "aesni", "pclmul", "rdrand", "xsave", "osxsave", "avx", "avx2(leaf7)", "avx512f(leaf7)" };
+struct SimCase { unsigned knobs; KV kv() const { std::string n; for (int i = 0; i < NKNOB; i++) if (knobs & (1u << i)) { if (!n.empty()) n += ","; n += KNOB[i]; } KV k; k.s("kind", "simcpu").u("knobs", knobs).s("cleared", n.empty() ? "nothing" : n); return k; } };
+simcpu::Machine machine_of(unsigned knobs) {
+    using namespace simcpu; Machine m;
+    if (knobs & (1u << K_SSE2)) m.clr1_edx |= D1_SSE2;
+    if (knobs & (1u << K_SSE3)) m.clr1_ecx |= E1_SSE3;
+    if (knobs & (1u << K_SSSE3)) m.clr1_ecx |= E1_SSSE3;
+    if (knobs & (1u << K_SSE41)) m.clr1_ecx |= E1_SSE41;
+    if (knobs & (1u << K_AESNI)) m.clr1_ecx |= E1_AESNI;
+    if (knobs & (1u << K_PCLMUL)) m.clr1_ecx |= E1_PCLMUL;
+    if (knobs & (1u << K_RDRAND)) m.clr1_ecx |= E1_RDRAND;
+    if (knobs & (1u << K_XSAVE)) m.clr1_ecx |= E1_XSAVE | E1_OSXSAVE;
+    if (knobs & (1u << K_OSXSAVE)) m.clr1_ecx |= E1_OSXSAVE;
+    if (knobs & (1u << K_AVX)) m.clr1_ecx |= E1_AVX;
+    if (knobs & (1u << K_AVX2)) m.clr7_ebx |= B7_AVX2;
+    if (knobs & (1u << K_AVX512F)) m.clr7_ebx |= B7_AVX512F;
+    return m;
+}
+struct SimOp { const char *name; bool deterministic; void (*fn)(Bytes &out); };
+const unsigned char SK[32] = { 1, 2, 3, 4, 5, 6, 7, 8, 9, 10, 11, 12, 13, 14, 15, 16, 17, 18, 19, 20, 21, 22, 23, 24, 25, 26, 27, 28, 29, 30, 31, 32 };
+const unsigned char SN[32] = { 0x40, 0x41, 0x42, 0x43, 0x44, 0x45, 0x46, 0x47, 0x48, 0x49, 0x4a, 0x4b, 0x4c, 0x4d, 0x4e, 0x4f, 0x50, 0x51, 0x52, 0x53, 0x54, 0x55, 0x56, 0x57, 0x58, 0x59, 0x5a, 0x5b, 0x5c, 0x5d, 0x5e, 0x5f };
+unsigned char SM[777];
+const SimOp SIMOPS[] = {
+    { "crypto_stream_chacha20", true, [](Bytes &o) { o.resize(600); crypto_stream_chacha20(o.data(), 600, SN, SK); } },
+    { "crypto_stream_chacha20_ietf_xor_ic", true, [](Bytes &o) { o.resize(333); crypto_stream_chacha20_ietf_xor_ic(o.data(), SM, 333, SN, 7, SK); } },
+    { "crypto_stream_salsa20_xor", true, [](Bytes &o) { o.resize(700); crypto_stream_salsa20_xor(o.data(), SM, 700, SN, SK); } },
+    { "crypto_stream_xsalsa20", true, [](Bytes &o) { o.resize(130); crypto_stream_xsalsa20(o.data(), 130, SN, SK); } },
+    { "crypto_stream_salsa2012", true, [](Bytes &o) { o.resize(130); crypto_stream_salsa2012(o.data(), 130, SN, SK); } },
+    { "crypto_generichash", true, [](Bytes &o) { o.resize(64); crypto_generichash(o.data(), 64, SM, 500, SK, 32); } },
+    { "crypto_onetimeauth", true, [](Bytes &o) { o.resize(16); crypto_onetimeauth(o.data(), SM, 333, SK); } },
+    { "crypto_scalarmult", true, [](Bytes &o) { o.resize(32); (void) !crypto_scalarmult(o.data(), SK, SN); } },
+    { "crypto_scalarmult_base", true, [](Bytes &o) { o.resize(32); crypto_scalarmult_base(o.data(), SK); } },
+    { "crypto_aead_aegis128l", true, [](Bytes &o) { o.resize(333 + 32 + 333); unsigned long long l; crypto_aead_aegis128l_encrypt(o.data(), &l, SM, 333, SN, 20, nullptr, SN, SK);
+        if (crypto_aead_aegis128l_decrypt(o.data() + 365, &l, nullptr, o.data(), 365, SN, 20, SN, SK) != 0) o[0] ^= 1; } },
+    { "crypto_aead_aegis256", true, [](Bytes &o) { o.resize(333 + 32 + 333); unsigned long long l; crypto_aead_aegis256_encrypt(o.data(), &l, SM, 333, SN, 20, nullptr, SN, SK);
+        if (crypto_aead_aegis256_decrypt(o.data() + 365, &l, nullptr, o.data(), 365, SN, 20, SN, SK) != 0) o[0] ^= 1; } },
+    { "crypto_aead_aes256gcm", false, [](Bytes &o) { o.assign(333 + 16 + 333, 0); if (!crypto_aead_aes256gcm_is_available()) return; unsigned long long l; crypto_aead_aes256gcm_encrypt(o.data(), &l, SM, 333, SN, 20, nullptr, SN, SK);
+        if (crypto_aead_aes256gcm_decrypt(o.data() + 349, &l, nullptr, o.data(), 349, SN, 20, SN, SK) != 0) o[0] ^= 1; } },
+    { "crypto_aead_xchacha20poly1305_ietf", true, [](Bytes &o) { o.resize(333 + 16); unsigned long long l; crypto_aead_xchacha20poly1305_ietf_encrypt(o.data(), &l, SM, 333, SN, 20, nullptr, SN, SK); } },
+    { "crypto_secretbox_easy", true, [](Bytes &o) { o.resize(200 + 16); crypto_secretbox_easy(o.data(), SM, 200, SN, SK); } },
+    { "crypto_pwhash(argon2id)", true, [](Bytes &o) { o.resize(32); (void) !crypto_pwhash(o.data(), 32, (const char *) SM, 20, SN, 1, 8192, crypto_pwhash_ALG_ARGON2ID13); } },
+    { "crypto_pwhash_scryptsalsa208sha256_ll", true, [](Bytes &o) { o.resize(40); (void) !crypto_pwhash_scryptsalsa208sha256_ll(SM, 20, SN, 16, 16, 1, 1, o.data(), 40); } },
+    { "randombytes_internal", false, [](Bytes &o) { o.resize(64); randombytes_internal_implementation.stir(); randombytes_internal_implementation.buf(o.data(), 64); } },
+};
+const size_t NSIMOPS = sizeof SIMOPS / sizeof SIMOPS[0];
+// instructions followed per call (a trap costs microseconds): enough to be well inside the implementation the dispatcher selected - Argon2 and
+// scrypt first hash their inputs (BLAKE2b-long of two 1 KiB blocks, PBKDF2), the compositions run a key derivation before the bulk cipher
+unsigned long sim_limit(const char *n) { if (strstr(n, "argon2")) return 150000; if (strstr(n, "scrypt") || strstr(n, "randombytes")) return 60000; if (strstr(n, "aead") || strstr(n, "secretbox")) return 30000; return 15000; }
+uint64_t g_sim_skipped = 0;
+unsigned long g_sim_steps = 0, g_sim_ext = 0;
+// runs in the forked child; returns "" (holds), "SKIP ..." or the failure text
+std::string sim_child(const SimCase &c) {
+    char b[500];
+    for (size_t i = 0; i < sizeof SM; i++) SM[i] = (unsigned char) (i * 37 + 11);
+    simcpu::Machine m = machine_of(c.knobs);
+    if (!simcpu::enter(m)) return "SKIP CPUID faulting is not available on this host";
+    unsigned prov = simcpu::provided(m, true);
+    sodium_verif_set_cpu_mask(F_ALL);                       // detection and selection re-run; every CPUID is answered by the harness
+    unsigned rep = (unsigned) current_features();
+    if (rep & ~prov) { snprintf(b, sizeof b, "the library reports %s, which the machine does not provide (CPUID bits cleared: %s; provided by the Intel SDM detection procedure: %s)", simcpu::feat_list(rep & ~prov).c_str(), c.kv().gs("cleared").c_str(), simcpu::feat_list(prov).c_str()); return b; }
+    if (sodium_runtime_has_neon() || sodium_runtime_has_armcrypto()) return "ARM features reported on an x86-64 machine";
+    if (crypto_aead_aes256gcm_is_available() && (prov & (simcpu::AESNI | simcpu::PCLMUL | simcpu::AVX)) != (simcpu::AESNI | simcpu::PCLMUL | simcpu::AVX)) return "AES-256-GCM reports itself available on a machine without AES-NI + PCLMUL + AVX";
+    std::vector<Bytes> outs(NSIMOPS);
+    simcpu::TraceState &t = simcpu::g_trace();
+    unsigned long steps = 0, ext = 0;
+    for (size_t i = 0; i < NSIMOPS; i++) {
+        memset((void *) &t, 0, sizeof t); t.absent = ~prov & 0x3ffu & ~simcpu::SSE2; t.limit = sim_limit(SIMOPS[i].name);
+        outs[i].reserve(1024);
+        void (*fn)(Bytes &) = SIMOPS[i].fn; Bytes &o = outs[i];
+        SIMCPU_TRACE_ON();
+        fn(o);
+        SIMCPU_TRACE_OFF();
+        steps += t.inlib; for (int k = 0; k < 10; k++) ext += t.by_feat[k];
+        if (t.n_bad) { snprintf(b, sizeof b, "%s executed %lu instruction(s) of ISA extension(s) the machine lacks (%s; first at executable+0x%lx; CPUID bits cleared: %s; the machine provides %s, the library reports %s): SIGILL on such a machine",
+            SIMOPS[i].name, (unsigned long) t.n_bad, simcpu::feat_list(t.first_bad_need).c_str(), (unsigned long) (t.first_bad - (uintptr_t) __executable_start), c.kv().gs("cleared").c_str(), simcpu::feat_list(prov).c_str(), simcpu::feat_list(rep).c_str()); return b; }
+        if (SIMOPS[i].deterministic && t.inlib < 50) { snprintf(b, sizeof b, "INFRA tracer saw only %lu instructions in %s", (unsigned long) t.inlib, SIMOPS[i].name); return b; }
+    }
+    sodium_verif_set_cpu_mask(0);
+    for (size_t i = 0; i < NSIMOPS; i++) {
+        if (!SIMOPS[i].deterministic) continue;
+        Bytes ref; SIMOPS[i].fn(ref);
+        if (ref != outs[i]) { snprintf(b, sizeof b, "%s: the result on the simulated machine (library reports %s) differs from the one with every feature masked off", SIMOPS[i].name, simcpu::feat_list(rep).c_str()); return b; }
+    }
+    snprintf(b, sizeof b, "OK %lu %lu %u %u", steps, ext, prov, rep);
+    return b;
+}
+bool run_sim(const SimCase &c, std::string &msg) {
+    int st = simcpu::selftest(); if (st >= 0) { msg = "harness self-check: the instruction classifier disagrees with hand-assembled instruction #" + std::to_string(st); return false; }
+    int fd[2]; if (pipe(fd) != 0) { g_sim_skipped++; return true; }
+    fflush(nullptr);
+    pid_t pid = fork();
+    if (pid < 0) { close(fd[0]); close(fd[1]); g_sim_skipped++; return true; }
+    if (pid == 0) { close(fd[0]); std::string r = sim_child(c); ssize_t w = write(fd[1], r.data(), r.size()); (void) w; _exit(0); }
+    close(fd[1]);
+    std::string r; char buf[600]; ssize_t n; while ((n = read(fd[0], buf, sizeof buf)) > 0) r.append(buf, (size_t) n);
+    close(fd[0]);
+    int status = 0; waitpid(pid, &status, 0);
+    if (WIFSIGNALED(status)) { msg = "the child died with signal " + std::to_string(WTERMSIG(status)) + " on the simulated machine (CPUID bits cleared: " + c.kv().gs("cleared") + ")"; return false; }
+    if (r.compare(0, 4, "SKIP") == 0) { g_sim_skipped++; return true; }
+    if (r.compare(0, 5, "INFRA") == 0) { fprintf(stderr, "VH-INFRA %s\n", r.c_str()); _exit(2); }
+    if (r.compare(0, 2, "OK") == 0) { unsigned long a = 0, e = 0; unsigned pv = 0, rp = 0; sscanf(r.c_str(), "OK %lu %lu %u %u", &a, &e, &pv, &rp); g_sim_steps += a; g_sim_ext += e; return true; }
+    msg = r.empty() ? "the child returned nothing" : r; return false;
+}
+void explore_sim(Ctx &ctx) {
+    if (!giant::fast_build()) { ctx.notes["simulated_cpus"] = "non-sanitizer builds only"; return; }
+    // SSE level x AVX state x AES/PCLMUL x RDRAND; the SSE chain is downward closed (no processor has SSE4.1 without SSSE3)
+    const unsigned sse_levels[] = { 0, 1u << K_SSE41, (1u << K_SSE41) | (1u << K_SSSE3), (1u << K_SSE41) | (1u << K_SSSE3) | (1u << K_SSE3), (1u << K_SSE41) | (1u << K_SSSE3) | (1u << K_SSE3) | (1u << K_SSE2) };
+    const unsigned avx_states[] = { 0, 1u << K_AVX512F, (1u << K_AVX512F) | (1u << K_AVX2), 1u << K_AVX2, 1u << K_AVX, 1u << K_OSXSAVE, 1u << K_XSAVE, (1u << K_AVX) | (1u << K_AVX2) | (1u << K_AVX512F), (1u << K_OSXSAVE) | (1u << K_AVX512F) };
+    const unsigned aes_states[] = { 0, 1u << K_AESNI, 1u << K_PCLMUL, (1u << K_AESNI) | (1u << K_PCLMUL) };
+    uint64_t idx = 0, n = 0;
+    for (unsigned a : avx_states) for (unsigned s : sse_levels) for (unsigned e : aes_states) {
+        unsigned knobs = a | s | e | ((n % 3 == 1) ? 1u << K_RDRAND : 0);
+        n++;
+        // quick tier: every AVX state at full SSE / AES, every SSE level without AVX, every AES state with and without AVX, one in eleven of the rest
+        bool quick_pick = (s == 0 && e == 0) || (a == avx_states[7] && e == 0) || (s == 0 && (a == 0 || a == (1u << K_AVX))) || n % 11 == 0;
+        if (!(ctx.thorough() && giant::first_round()) && !quick_pick) continue;      // all 180 machines: first thorough round (they are enumerated, not seeded)
+        if (!ctx.mine(idx++)) continue;
+        SimCase c{ knobs };
+        if (a) ctx.cls("sim:avx-state-altered"); if (s) ctx.cls("sim:sse-level-lowered"); if (e) ctx.cls("sim:aes/pclmul-absent");
+        exec_case(ctx, c, run_sim, mix64(knobs, 0x51), knobs != 0);
+    }
+    ctx.notes["simulated_cpus_skipped"] = std::to_string(g_sim_skipped);
+    ctx.notes["simulated_cpus_instructions_traced"] = std::to_string(g_sim_steps);
+    ctx.notes["simulated_cpus_extension_instructions"] = std::to_string(g_sim_ext);
+}
+
 bool replay(const KV &k, std::string &msg) {
+    if (k.gs("kind") == "simcpu") { SimCase c{ (unsigned) k.gu("knobs") }; return run_sim(c, msg); }
     if (k.gs("kind") == "getter") { GCase c{ (int) k.gu("idx") }; return run_getter(c, msg); }
     if (k.gs("kind") == "getters") { uint64_t d = 0x6e77; for (auto &g : getters()) d = mix64(d, g.is_str ? hash_str(g.fn_str ? g.fn_str : "") : g.fn_num); printf("XB-DIGEST %016llx\n", (unsigned long long) d); return true; }
     if (k.gs("kind") == "huge") {
@@ -288,4 +429,4 @@ void explore_masks_xb(Ctx &ctx) {
 
 }  // namespace
 
-std::vector<Sub> vh_subs() { return { { "features", explore_features, replay }, { "masks", explore_masks_xb, replay }, { "huge_inputs", explore_huge, replay }, { "constants", explore_getters, replay }, { "xbuild", [](Ctx &) {}, replay } }; }
+std::vector<Sub> vh_subs() { return { { "features", explore_features, replay }, { "simulated_cpus", explore_sim, replay }, { "masks", explore_masks_xb, replay }, { "huge_inputs", explore_huge, replay }, { "constants", explore_getters, replay }, { "xbuild", [](Ctx &) {}, replay } }; }
